@@ -6,15 +6,28 @@ import (
 	"fmt"
 	"testing"
 
+	"github.com/platinummonkey/go-concurrency-limits/core"
+	"github.com/platinummonkey/go-concurrency-limits/strategy"
+
 	"pgregory.net/rapid"
 
 	"verifharness/kit"
 )
 
+// metric names as the library composes them for a limit named "t"
+var (
+	mRTT      = core.PrefixMetricWithName(core.MetricRTT, "t")
+	mInflight = core.PrefixMetricWithName(core.MetricInFlight, "t")
+	mDropped  = core.PrefixMetricWithName(core.MetricDropped, "t")
+	mLimit    = core.PrefixMetricWithName(core.MetricLimit, "t")
+)
+
+func partTag(name string) string { return strategy.PartitionTagName + ":" + name }
+
 func dlCheckAcquireMetrics(c dlCase, b *dlBuilt, i int, e dlEv, ok bool, busyBefore int, perKey map[string]int, smp []recSample) *kit.Outcome {
 	var total, bins []recSample
 	for _, s := range smp {
-		if s.ID != "inflight" {
+		if s.ID != core.MetricInFlight {
 			continue
 		}
 		if s.Tags == "" {
@@ -43,7 +56,7 @@ func dlCheckAcquireMetrics(c dlCase, b *dlBuilt, i int, e dlEv, ok bool, busyBef
 			if bin == "<unknown>" {
 				want = float64(perKey["zz"] + 1)
 			}
-			if len(bins) != 1 || bins[0].Tags != "partition:"+bin || bins[0].Value != want {
+			if len(bins) != 1 || bins[0].Tags != partTag(bin) || bins[0].Value != want {
 				o := kit.Viol(c.Strategy+":bin-inflight-metric", "event %d: granted request of %q emitted partition in-flight samples %v, expected one for partition %q with value %v", i, e.Key, fmtSamples(bins), bin, want)
 				return &o
 			}
@@ -73,13 +86,13 @@ func fmtSamples(s []recSample) string {
 
 func dlCheckSampleMetrics(c dlCase, b *dlBuilt, i int, smp []recSample, before int, model *dlModel, estBefore int) *kit.Outcome {
 	// gauges report the currently enforced values
-	if v, ok := b.reg.gauge("limit", ""); !ok || int(v) != b.stratLimit() {
+	if v, ok := b.reg.gauge(core.MetricLimit, ""); !ok || int(v) != b.stratLimit() {
 		o := kit.Viol(c.Strategy+":limit-gauge", "after event %d: limit gauge reports %v (registered=%v), the strategy enforces %d", i, v, ok, b.stratLimit())
 		return &o
 	}
 	if b.lookup != nil || b.pred != nil {
 		for k, n := range dlBins {
-			if v, ok := b.reg.gauge("limit.partition", "partition:"+n); !ok || int(v) != b.binLimit(k) {
+			if v, ok := b.reg.gauge(core.MetricPartitionLimit, partTag(n)); !ok || int(v) != b.binLimit(k) {
 				o := kit.Viol(c.Strategy+":share-gauge", "after event %d: limit.partition gauge of %q reports %v, the partition enforces %d", i, n, v, b.binLimit(k))
 				return &o
 			}
@@ -92,11 +105,11 @@ func dlCheckSampleMetrics(c dlCase, b *dlBuilt, i int, smp []recSample, before i
 	var rtt, inf, drop []recSample
 	for _, s := range smp {
 		switch s.ID {
-		case "t.rtt":
+		case mRTT:
 			rtt = append(rtt, s)
-		case "t.inflight":
+		case mInflight:
 			inf = append(inf, s)
-		case "t.dropped":
+		case mDropped:
 			drop = append(drop, s)
 		}
 	}
@@ -156,11 +169,11 @@ func TestC20_limit_metrics(t *testing.T) {
 				var rtt, infs, drop []recSample
 				for _, x := range reg.take() {
 					switch x.ID {
-					case "t.rtt":
+					case mRTT:
 						rtt = append(rtt, x)
-					case "t.inflight":
+					case mInflight:
 						infs = append(infs, x)
-					case "t.dropped":
+					case mDropped:
 						drop = append(drop, x)
 					}
 				}
@@ -174,16 +187,16 @@ func TestC20_limit_metrics(t *testing.T) {
 				if len(rtt) != 1 || rtt[0].Value != float64(s.RTT) || len(infs) != 1 || infs[0].Value != float64(inf) || len(drop) != wantDrops || (wantDrops == 1 && drop[0].Value != 1) {
 					return kit.Viol(c.Cfg.Algo+":sample-metrics", "sample %d (rtt=%d in-flight=%d drop=%v): emitted rtt=%v inflight=%v dropped=%v", i, s.RTT, inf, s.Drop, vals(rtt), vals(infs), vals(drop))
 				}
-				if v, ok := reg.gauge("t.limit", ""); !ok || int(v) != b.Outer.EstimatedLimit() {
+				if v, ok := reg.gauge(mLimit, ""); !ok || int(v) != b.Outer.EstimatedLimit() {
 					return kit.Viol(c.Cfg.Algo+":limit-gauge", "after sample %d: limit gauge reports %v (registered=%v), EstimatedLimit()=%d", i, v, ok, b.Outer.EstimatedLimit())
 				}
-				if k, ok := reg.Kinds["t.rtt|"]; !ok || k != "timing" {
+				if k, ok := reg.Kinds[mRTT+"|"]; !ok || k != "timing" {
 					return kit.Viol(c.Cfg.Algo+":metric-kind", "rtt registered as %q", k)
 				}
-				if k := reg.Kinds["t.dropped|"]; k != "count" {
+				if k := reg.Kinds[mDropped+"|"]; k != "count" {
 					return kit.Viol(c.Cfg.Algo+":metric-kind", "dropped registered as %q", k)
 				}
-				if k := reg.Kinds["t.inflight|"]; k != "distribution" {
+				if k := reg.Kinds[mInflight+"|"]; k != "distribution" {
 					return kit.Viol(c.Cfg.Algo+":metric-kind", "inflight registered as %q", k)
 				}
 			}
